@@ -54,6 +54,9 @@ def logical_ops():
     ops["polyline"] = shape(lambda p, d: c10.polyline_case(p, [(2, 0), (2, 3, 1), (0, 0)]))
     # a waypoint exactly at the machine origin (and one repeated waypoint)
     ops["polyline-origin"] = shape(lambda p, d: c10.polyline_case(p, [(1.0, 2.0, 0.5), (-p[0], -p[1], -p[2]), (2.0 - p[0], 1.0 - p[1], -p[2]), (2.0 - p[0], 1.0 - p[1], -p[2])]))
+    # moves that name a single axis (equal steps: the emitted line must still mention every machine axis that changes)
+    ops["step-x"] = lambda p, d: ("move_axis", {"axis": "x", "target": [p[0] + 10.0, p[1], p[2]]}, (p[0] + 10.0, p[1], p[2]))
+    ops["step-z"] = lambda p, d: ("move_axis", {"axis": "z", "target": [p[0], p[1], p[2] - 2.0]}, (p[0], p[1], p[2] - 2.0))
     # a bypass move the limits refuse (only used in histories with limits configured): the caller catches the error and carries on
     ops["rejected-bypass"] = lambda p, d: ("rejected_bypass", {}, tuple(p))
     # user-supplied parametric curves in absolute coordinates; the second one does not start at the current position
@@ -90,6 +93,10 @@ def apply(run, kind, largs, start):
                     raise KeyError("body failed")
             except KeyError:
                 pass
+        elif kind == "move_axis":
+            i = "xyz".index(largs["axis"])
+            v = largs["target"][i]
+            g.move(**{largs["axis"]: v if run.mode == "absolute" else v - start[i]})
         elif kind == "rejected_bypass":
             for call in (g.move_absolute, g.rapid_absolute):
                 try:
@@ -208,6 +215,10 @@ def run(tier, seed):
             first = [n for n in simple if "absolute" not in n]
         for h in itertools.product(first, pool):
             hists.append((STARTS[1], "clockwise", h, opts))
+    # equal single-axis steps from the fixed point of a quarter-turn rotation (and of the scale+rotate transform)
+    for tr in ("rot90", True):
+        for h in (("step-x", "step-x", "step-x"), ("step-x", "step-z", "step-x", "step-x"), ("step-z", "step-z", "step-x"), ("step-x", "move", "step-x", "step-x")):
+            hists.append((STARTS[0], "clockwise", h, {"transform": tr}))
     # axes limits configured, a refused bypass move in the middle of the path
     for a in ("move", "rapid", "arc"):
         for b in simple:
